@@ -179,8 +179,8 @@ class World:
         self.planner = "memo"
 
     # -- bookkeeping -------------------------------------------------------
-    def fault(self, kind):
-        self.faults[kind] = self.faults.get(kind, 0) + 1
+    def fault(self, kind, n=1):
+        self.faults[kind] = self.faults.get(kind, 0) + n
 
     def probe(self, name, n=1):
         self.probes[name] = self.probes.get(name, 0) + n
@@ -496,6 +496,34 @@ class World:
         self.calls.append((op, out))
         self.fault("helper_call")
         self._event(op, out, None)
+
+    def op_e3(self, op):
+        """Macro op: a pre-emptive sub-world (engine E3).  Tasks become slots
+        of this world so that the ordinary history checkers apply."""
+        from .preempt import run_preemptive
+        _, seed, tasks, p_cold, p_hot = op
+        res = run_preemptive(seed, [tuple(t) for t in tasks], p_cold, p_hot,
+                             {"monitor_counters": False})
+        base = 1000 * (1 + sum(1 for o in self.ops[:-1] if o[0] == "e3"))
+        for i, tw in enumerate(res.worlds):
+            if tw is None:
+                continue
+            for s in tw.all_slots():
+                s.sid = base + i
+                s.sched = None
+                self.dropped.append(s)
+            self.n_actions += tw.n_actions
+            for v in tw.viol:
+                v = dict(v, slot=base + i)
+                self.viol.append(v)
+        self.fault("preemption", res.switches)
+        self.probe("e3_worlds")
+        self.probe("e3_line_events", res.line_events)
+        self.probe("e3_switches", res.switches)
+        self.probe("e3_distinct_sites", len(res.sites))
+        self.e3_errors = getattr(self, "e3_errors", []) + res.errors
+        self._event(op, ["e3", res.switches, res.line_events,
+                         res.log.hexdigest()[:16], res.errors], None)
 
     def op_table(self, op):
         """C16: every row of the tabulated planner's table against the
